@@ -320,7 +320,10 @@ def r2_ledger(ctx):
         tot = _add(*[ev[e][0] for e in evs])
         left = {t: v for t, v in tot.items() if v != 0}
         steps = " ; ".join("%s{%s}" % (e, ",".join(ev[e][1])) for e in evs)
-        R.check(not left, "C18.R2", "lifecycle:%s" % name, "lifecycle `%s` nets to zero entries in every table" % name, "after the lifecycle `%s` the client keeps %s (entries left per table): its bookkeeping grows with every such subscription/request  [%s]" % (name, left, steps), "%s:%d" % (psr.file, psr.lo), {"events": evs, "left": left, "steps": steps})
+        # the key of a violation names the lifecycle *and* what is left behind, so that a listed known finding never masks
+        # a different residue on the same lifecycle
+        lkey = "lifecycle:%s" % name + ("" if not left else ":left=" + ",".join("%s%+d" % (t, v) for t, v in sorted(left.items())))
+        R.check(not left, "C18.R2", lkey, "lifecycle `%s` nets to zero entries in every table" % name, "after the lifecycle `%s` the client keeps %s (entries left per table): its bookkeeping grows with every such subscription/request  [%s]" % (name, left, steps), "%s:%d" % (psr.file, psr.lo), {"events": evs, "left": left, "steps": steps})
     R.floor("C18.R2", len(lifecycles), 11, "lifecycles")
 
 
@@ -347,13 +350,80 @@ def r4_lost_drop_is_recovered(ctx):
 
 
 
+def r5_no_unaccounted_success_path(ctx):
+    """the ledger (R2) prices the paths that go through its event markers; this rule closes the gap: there is no *other*
+    way through the response handlers that leaves a success return. (a) process_batch_response returns Ok only after
+    complete_pending_batch removed the batch's entry - an early `return Ok(())` for an abandoned batch keeps the entry
+    forever and absorbs later replies with those ids; (b) in process_single_response, once complete_pending_subscription
+    took the pending entry out, every path to an exit either goes on to insert_subscription (priced by R2) or releases the
+    reserved unsubscribe id with complete_pending_call - a shortcut that returns an unsubscribe request without
+    releasing the reservation leaves that id pending for good and the request is then refused as a duplicate."""
+    F, R = ctx.F, ctx.R
+    pbr = F.one(r"^jsonrpsee_core::client::async_client::helpers::process_batch_response$")
+    psr = F.one(r"^jsonrpsee_core::client::async_client::helpers::process_single_response$")
+    R.fn(pbr)
+    R.fn(psr)
+
+    def ok_returns(b):
+        out = set()
+        for bi, blk in enumerate(b.blocks):
+            if bi not in b.reachable or blk.get("cleanup"):
+                continue
+            for st in blk["st"]:
+                if st["s"] == "assign" and st["pl"]["l"] == 0 and not st["pl"].get("p") and st["rv"]["k"] == "agg" and st["rv"].get("variant") == "Ok":
+                    out.add(bi)
+        return out
+
+    cpb = pbr.calls_to(r"RequestManager::complete_pending_batch$")
+    oks = ok_returns(pbr)
+    if len(cpb) != 1 or not oks:
+        raise AnchorLost("complete_pending_batch / Ok(..) in process_batch_response")
+    some_t = None
+    for sb, arms, other in flow.switch_on(pbr, cpb[0].dest["l"]):
+        some_t = arms.get("1")
+    R.check(some_t is not None and all(pbr.dominates(some_t, o) for o in oks), "C18.R5", "batch:ok-only-after-entry-removed", "process_batch_response returns Ok only on the arm where the batch's entry was taken out of the manager", "process_batch_response has a successful return that does not go through the Some arm of complete_pending_batch: the batch's entry stays in the manager for good (one entry per such batch) and later replies spanning its ids are absorbed instead of rejected", where(cpb[0]))
+    cps = psr.calls_to(r"RequestManager::complete_pending_subscription$")
+    if len(cps) != 1:
+        raise AnchorLost("complete_pending_subscription in process_single_response")
+    c = cps[0]
+    m = None
+    # `...ok_or(..)?` : the Continue arm of the `?`
+    holders = follow_value(psr, c.dest["l"])
+    for x in psr.calls_to(r"Option::<.*>::ok_or(_else)?$"):
+        if arg_is_local(psr, x.args[0], c.dest["l"]):
+            holders |= follow_value(psr, x.dest["l"])
+    for br in psr.calls_to(r"Try.*::branch$"):
+        p0 = op_place(br.args[0])
+        if p0 is not None and p0["l"] in holders:
+            for sb, arms, other in flow.switch_on(psr, br.dest["l"]):
+                m = arms.get("0")
+    if m is None:
+        for sb, arms, other in flow.switch_on(psr, c.dest["l"]):
+            m = arms.get("1")
+    if m is None:
+        raise AnchorLost("the arm of process_single_response on which the pending subscription was taken out")
+    ins = [x for x in psr.calls_to(r"RequestManager::insert_subscription$") if psr.dominates(m, x.bb)]
+    rel = [x for x in psr.calls_to(r"RequestManager::complete_pending_call$") if psr.dominates(m, x.bb)]
+    R.check(bool(ins) and bool(rel), "C18.R5", "subscribe:shape", "the arm re-inserts the subscription or releases the reservation", "process_single_response's pending-subscription arm has %d insert_subscription and %d reservation releases" % (len(ins), len(rel)), "%s:%d" % (psr.file, psr.lo))
+    ok = flow.all_paths_pass(psr, m, {x.bb for x in ins} | {x.bb for x in rel}, psr.exits)
+    R.check(ok, "C18.R5", "subscribe:every-exit-reinserts-or-releases", "after the pending subscription was taken out, every way out re-inserts it as active or releases the reserved unsubscribe id", "process_single_response can leave its pending-subscription arm without inserting the subscription and without releasing the reserved unsubscribe id: that id stays pending forever (it swallows a later response bearing it, and an unsubscribe request using it is refused as a duplicate and never sent)", "%s:%d" % (psr.file, block_line(psr, m)))
+    # on the paths through insert_subscription's failure, the reservation is released too
+    for x in ins:
+        for q in psr.calls_to(r"Result::<.*>::is_ok$"):
+            if arg_is_local(psr, q.args[0], x.dest["l"]):
+                for sb, arms, other in flow.switch_on(psr, q.dest["l"]):
+                    ft = arms.get("0")
+                    if ft is not None:
+                        R.check(flow.all_paths_pass(psr, ft, {y.bb for y in rel}, psr.exits) or ft in {y.bb for y in rel}, "C18.R5", "subscribe:refused-insert-releases", "a refused insert releases the reservation", "a refused insert_subscription leaves the reserved unsubscribe id pending", "%s:%d" % (psr.file, block_line(psr, ft)))
+
+
 def rarr_every_element(ctx):
     """an array message is processed element by element to the end"""
     from .common import array_elements_all_processed
     array_elements_all_processed(ctx.F, ctx.R, "C18.ARR")
 
 
-RULES = [r1_effect_summaries, r2_ledger, r3_notification_arms, r4_lost_drop_is_recovered, rarr_every_element]
+RULES = [r1_effect_summaries, r2_ledger, r3_notification_arms, r4_lost_drop_is_recovered, r5_no_unaccounted_success_path, rarr_every_element]
 
 LEVEL_TEXT = (
     "A ledger over the client's four private tables decided from the type-checked program: per-method effect summaries "
